@@ -114,9 +114,13 @@ func refContains(s, sub string) bool {
 // HarnessC07Missing: a missing component file is reported when the templates are loaded, naming the component.
 func HarnessC07Missing() {
 	vfsReset()
-	vfsWriteFile("templates/page.tw", "A@component(\"~nope\", {t: 1})B")
+	// the name holds one symbolic byte (any printable ASCII character that can stand in a quoted name, '%' included)
+	b := vByte("name-byte")
+	vAssume(b >= ' ' && b < 0x7f && b != '"' && b != '\\' && b != '/')
+	name := "no" + string([]byte{b}) + "pe"
+	vfsWriteFile("templates/page.tw", "A@component(\"~"+name+"\", {t: 1})B")
 	tpl, err := newTemplate("templates", ".tw")
 	vCover("checked")
 	vAssert(err != nil && tpl == nil, "missing-component-is-reported-at-load")
-	vAssert(refContains(err.Error(), "components/nope"), "error-names-the-component")
+	vAssert(refContains(err.Error(), "components/"+name), "error-names-the-component")
 }
